@@ -1682,8 +1682,11 @@ namespace bloch::runtime {
                 const auto& param = ctor->params[i];
                 auto fieldMeta = findInstanceField(cls, param->name);
                 if (fieldMeta && fieldMeta->offset < obj->fields.size()) {
-                    obj->fields[fieldMeta->offset] = args[i];
-                    stampStaticClass(obj->fields[fieldMeta->offset], fieldMeta->type);
+                    // The field initialiser has already run: the slot may hold the last
+                    // reference to an object, so it is replaced the same way as on assignment.
+                    Value bound = args[i];
+                    stampStaticClass(bound, fieldMeta->type);
+                    storeInSlot(obj->fields[fieldMeta->offset], bound);
                 }
             }
         }
